@@ -175,7 +175,7 @@ def net_request(A, directed, w, perm):
 
 
 def impl_net(pnet, directed, connected):
-    """the 23 sections of `netRelabelled`, `None` where the implementation's notion differs
+    """the 26 sections of `netRelabelled`, `None` where the implementation's notion differs
     (undirected notions on directed networks, closeness on unconnected ones)"""
     und = not directed
     n = pnet.N
@@ -196,7 +196,12 @@ def impl_net(pnet, directed, connected):
            attempt(pnet.nsi_indegree), attempt(pnet.nsi_outdegree), attempt(pnet.nsi_degree),
            attempt(pnet.nsi_local_clustering) if und else None,
            # round 4: the loop over the edge list (ZeroDivisionError -> not compared)
-           attempt(pnet.assortativity) if und and pnet.n_links > 0 else None]
+           attempt(pnet.assortativity) if und and pnet.n_links > 0 else None,
+           # round 5: `graph - i` (igraph renumbers the later vertices by shifting), BFS on the
+           # reduced network, (E - E_i)/E; the cliquishness kernels with their neighbour buffer
+           attempt(pnet.local_vulnerability) if und and n >= 3 and pnet.n_links > 0 else None,
+           attempt(pnet.local_cliquishness, 4) if und else None,
+           attempt(pnet.local_cliquishness, 5) if und else None]
     return sec
 
 
@@ -1006,7 +1011,8 @@ def run(ctx):
                    "\n".join(bad_eval[:8]))
     ctx.extra["values_compared"] = nvals
     names = {"net": "C03 model `Net` (degrees, motif clustering, matching index, BFS distances, path "
-                    "measures, coreness peeling, n.s.i. degree / clustering / closeness, assortativity)",
+                    "measures, coreness peeling, n.s.i. degree / clustering / closeness, assortativity, "
+                    "local vulnerability = node removal + BFS + efficiencies, cliquishness kernels)",
              "cross": "C11 model `Cross` (cross / internal measures with node lists renumbered by "
                       "`Relabel.nodes`)",
              "res": "C18 model `Circuit` (effective resistance via certified pseudo-inverses, closeness, "
